@@ -192,3 +192,657 @@ Proof.
        h_type h_encoding h_def_enc h_rep_enc c_maxdef c_maxrep].
   repeat split; try (intro H; decompose [and or] H; discriminate); auto.
 Qed.
+
+(* ================================================================== level width *)
+
+Lemma size_shiftr1 m : 0 < m -> N.size m = N.succ (N.size (N.shiftr m 1)).
+Proof.
+  intros H. destruct m as [|p]; [lia|]. destruct p as [q|q|]; cbn; try reflexivity.
+Qed.
+
+Lemma bw_loop_spec : forall fuel m width, N.size m <= N.of_nat fuel -> bw_loop fuel m width = (width + N.to_nat (N.size m))%nat.
+Proof.
+  induction fuel as [|f IH]; intros m width H.
+  - cbn [bw_loop]. assert (E : N.size m = 0) by lia. rewrite E. cbn. lia.
+  - cbn [bw_loop]. destruct (N.ltb_spec 0 m) as [P|Z0].
+    + rewrite (size_shiftr1 m P) in *. rewrite IH by lia. lia.
+    + assert (m = 0) by lia. subst m. cbn. lia.
+Qed.
+
+(** bit_width_for_max computes the bit width the format prescribes (levels are int16_t: far below 2^32) *)
+Lemma bit_width_for_max_spec m : m < 2 ^ 32 -> bit_width_for_max m = bit_width m.
+Proof.
+  intros H. unfold bit_width_for_max, bit_width. destruct (N.eqb_spec m 0) as [->|Hm]; [reflexivity|].
+  rewrite bw_loop_spec; [reflexivity|].
+  change (N.of_nat 32) with 32. pose proof (N.size_le m) as L. rewrite N.succ_double_spec in L.
+  apply N.lt_succ_r. apply (N.pow_lt_mono_r_iff 2); [lia|]. change (N.succ 32) with 33.
+  change (2 ^ 33) with 8589934592. change (2 ^ 32) with 4294967296 in H. lia.
+Qed.
+
+(* ================================================================== carquet_rle_decode_levels *)
+
+Lemma varint_inline_read : forall fuel shift acc bs r,
+  RleModel.read_varint fuel shift acc bs = Some r -> varint_inline fuel shift acc bs = r.
+Proof.
+  induction fuel as [|f IH]; intros shift acc bs r H; [discriminate|].
+  cbn [RleModel.read_varint] in H. cbn [varint_inline]. destruct bs as [|b tl]; [discriminate|].
+  destruct (N.land b 128 =? 0); [injection H as <-; reflexivity|]. apply IH. exact H.
+Qed.
+
+Lemma varint_inline_header h tl : h < 2 ^ 32 -> varint_inline 5 0 0 (uleb128 h ++ tl) = (h, tl).
+Proof. intros H. apply varint_inline_read. apply read_header. exact H. Qed.
+
+Lemma firstn_min_len {A} (l : list A) n : firstn n l = firstn (Nat.min n (length l)) l.
+Proof.
+  destruct (Nat.le_ge_cases n (length l)) as [L|G].
+  - rewrite Nat.min_l by exact L. reflexivity.
+  - rewrite Nat.min_r by exact G. rewrite firstn_all, firstn_all2 by exact G. reflexivity.
+Qed.
+
+Lemma firstn_app_split {A} (a b : list A) n :
+  firstn n (a ++ b) = firstn (Nat.min n (length a)) a ++ firstn (n - length a) b.
+Proof. rewrite firstn_app. f_equal. apply firstn_min_len. Qed.
+
+(** the group loop on the bytes of a bit-packed run of [k] groups: it delivers the first [want] values; when it has
+    delivered the whole run, the input position is right behind the run *)
+Lemma lv_groups_spec w : forall k more fuel rest want,
+  length more = (8 * k)%nat -> small w more -> (k < fuel)%nat ->
+  fst (lv_groups fuel w (N.of_nat k) (lit_bytes w more ++ rest) want) = firstn want more /\
+  ((length more <= want)%nat -> snd (lv_groups fuel w (N.of_nat k) (lit_bytes w more ++ rest) want) = rest).
+Proof.
+  induction k as [|k IH]; intros more fuel rest want Hl Hs Hf; (destruct fuel as [|f]; [lia|]); cbn [lv_groups].
+  - destruct more; [|discriminate]. cbn [N.of_nat N.eqb orb fst snd]. rewrite firstn_nil, lit_bytes_nil.
+    split; [reflexivity|intros _; reflexivity].
+  - assert (E0 : (N.of_nat (S k) =? 0) = false) by (apply N.eqb_neq; lia). rewrite E0. cbn [orb].
+    destruct (Nat.eqb_spec want 0) as [->|Hw].
+    { cbn [fst snd firstn]. split; [reflexivity|intros L; lia]. }
+    set (g := firstn 8 more). set (more' := skipn 8 more).
+    assert (Em : more = g ++ more') by (symmetry; apply firstn_skipn).
+    assert (Hg : length g = 8%nat) by (apply firstn_length_le; lia).
+    assert (Hm' : length more' = (8 * k)%nat) by (unfold more'; rewrite skipn_length; lia).
+    rewrite Em in Hs. apply small_app in Hs. destruct Hs as [Hsg Hsm].
+    assert (Hb : lit_bytes w more ++ rest = pack_spec w g ++ lit_bytes w more' ++ rest).
+    { rewrite Em at 1. rewrite (lit_bytes_group w g more' Hg), <- app_assoc. reflexivity. }
+    rewrite Hb.
+    destruct (unpack_group w g (lit_bytes w more' ++ rest) Hg Hsg) as [U Sk]. rewrite U, Sk.
+    replace (N.of_nat (S k) - 1) with (N.of_nat k) by lia.
+    assert (Hout : length (firstn (Nat.min 8 want) g) = Nat.min 8 want) by (apply firstn_length_le; lia).
+    destruct (IH more' f rest (want - length (firstn (Nat.min 8 want) g))%nat Hm' Hsm ltac:(lia)) as [I1 I2].
+    destruct (lv_groups f w (N.of_nat k) (lit_bytes w more' ++ rest) (want - length (firstn (Nat.min 8 want) g))) as [o2 r2].
+    cbn [fst snd] in *. split.
+    + rewrite I1, Em, firstn_app_split, Hg, Hout. rewrite (Nat.min_comm want 8). f_equal. f_equal. lia.
+    + intros L. apply I2. rewrite Hout, Hm'. rewrite Em, app_length, Hg, Hm' in L. lia.
+Qed.
+
+Lemma runs_div8 (vs : list N) : Nat.modulo (length vs) 8 = 0%nat -> length vs = (8 * Nat.div (length vs) 8)%nat.
+Proof. intros H. pose proof (Nat.div_mod (length vs) 8 ltac:(lia)) as E. lia. Qed.
+
+Lemma min_firstn_repeat {A} (a : A) want n : firstn (Nat.min want n) (repeat a n) = repeat a (Nat.min want n).
+Proof. apply firstn_repeat. lia. Qed.
+
+Lemma lit_bytes_length w : forall k more, length more = (8 * k)%nat -> length (lit_bytes w more) = (w * k)%nat.
+Proof.
+  induction k as [|k IH]; intros more Hl.
+  - destruct more; [|discriminate]. rewrite lit_bytes_nil, Nat.mul_0_r. reflexivity.
+  - assert (Em : more = firstn 8 more ++ skipn 8 more) by (symmetry; apply firstn_skipn).
+    assert (Hg : length (firstn 8 more) = 8%nat) by (apply firstn_length_le; lia).
+    rewrite Em, (lit_bytes_group w _ _ Hg), app_length, pack_spec_length, IH by (rewrite skipn_length; lia).
+    rewrite Nat.mul_succ_r. lia.
+Qed.
+
+Lemma lv_loop_zero fuel w rest : lv_loop fuel w rest 0 = [].
+Proof. destruct fuel; reflexivity. Qed.
+
+(** carquet_rle_decode_levels returns the values of every well-formed run stream: RLE runs of any length (zero
+    included), bit-packed runs of any number of groups (zero included), in any mix *)
+Lemma lv_loop_runs w : (1 <= w <= 32)%nat -> forall rs fuel want,
+  Forall (wf_run w) rs -> (length (bytes_of_runs w rs) < fuel)%nat -> (want <= length (runs_vals rs))%nat ->
+  lv_loop fuel w (bytes_of_runs w rs) want = firstn want (runs_vals rs).
+Proof.
+  intros [Hw1 Hw] rs. induction rs as [|r rs IH]; intros fuel want Hwf Hf Hwant.
+  - destruct fuel as [|f]; [cbn in Hf; lia|]. cbn [lv_loop bytes_of_runs map concat runs_vals].
+    destruct (Nat.eqb want 0); rewrite ?firstn_nil; reflexivity.
+  - inversion Hwf as [|? ? Hr Hrs]; subst. destruct fuel as [|f]; [lia|]. cbn [lv_loop].
+    destruct (Nat.eqb_spec want 0) as [->|Hw0]; [reflexivity|].
+    rewrite bytes_of_runs_cons, runs_vals_cons in *.
+    remember (bytes_of_run w r ++ bytes_of_runs w rs) as bs eqn:Ebs.
+    destruct bs as [|b0 tl0].
+    { exfalso. symmetry in Ebs. apply app_eq_nil in Ebs. destruct Ebs as [Eb _]. exact (bytes_of_run_nonempty w r Eb). }
+    rewrite Ebs in *. clear b0 tl0 Ebs.
+    destruct r as [n v | vs]; cbn [bytes_of_run run_vals] in *.
+    + (* RLE run *)
+      destruct Hr as [Hv Hn]. rewrite <- app_assoc, (varint_inline_header _ _ Hn).
+      rewrite land_even_1. cbn [N.eqb]. rewrite shiftr1_even.
+      assert (Hlen : Nat.ltb (length (to_base 256 (value_bytes w) v ++ bytes_of_runs w rs)) (vbytes w) = false).
+      { apply Nat.ltb_ge. rewrite app_length, to_base_length, vbytes_value_bytes. lia. }
+      rewrite Hlen, (read_value w v _ Hw Hv).
+      assert (Hsk : skipn (vbytes w) (to_base 256 (value_bytes w) v ++ bytes_of_runs w rs) = bytes_of_runs w rs).
+      { rewrite vbytes_value_bytes, skipn_app, to_base_length, Nat.sub_diag, skipn_O, skipn_all2 by (rewrite to_base_length; lia).
+        reflexivity. }
+      rewrite Hsk.
+      assert (Hf' : (length (bytes_of_runs w rs) < f)%nat).
+      { rewrite !app_length in Hf. pose proof (uleb_nonempty 9 (2 * N.of_nat n)) as U. unfold uleb128 in Hf.
+        destruct (uleb 9 (2 * N.of_nat n)); [contradiction|]. cbn [length] in Hf. lia. }
+      rewrite app_length, repeat_length in Hwant.
+      destruct (N.eqb_spec (N.of_nat n) 0) as [E0|E0].
+      * assert (n = 0%nat) by lia. subst n. cbn [repeat app]. apply IH; [exact Hrs|exact Hf'|cbn in Hwant; exact Hwant].
+      * rewrite nmin_min. rewrite IH by (try assumption; lia).
+        rewrite firstn_app_split, repeat_length, min_firstn_repeat. f_equal. f_equal. lia.
+    + (* bit-packed run *)
+      destruct Hr as (Hm & Hs & Hh). rewrite <- app_assoc, (varint_inline_header _ _ Hh).
+      rewrite land_odd_1. cbn [N.eqb]. rewrite shiftr1_odd. fold (lit_bytes w vs) in *.
+      pose proof (lit_bytes_length w _ vs (runs_div8 vs Hm)) as Hlb.
+      assert (Hf' : (length (lit_bytes w vs ++ bytes_of_runs w rs) < f)%nat).
+      { rewrite !app_length in Hf. pose proof (uleb_nonempty 9 (2 * N.of_nat (Nat.div (length vs) 8) + 1)) as U.
+        unfold uleb128 in Hf. destruct (uleb 9 (2 * N.of_nat (Nat.div (length vs) 8) + 1)); [contradiction|].
+        cbn [length] in Hf. rewrite app_length. lia. }
+      rewrite app_length in Hwant.
+      destruct (N.eqb_spec (N.of_nat (Nat.div (length vs) 8) * 8) 0) as [E0|E0].
+      * assert (Hz : length vs = 0%nat) by (rewrite (runs_div8 vs Hm); lia).
+        destruct vs; [|discriminate]. rewrite lit_bytes_nil in *. cbn [app].
+        apply IH; [exact Hrs|exact Hf'|cbn in Hwant; exact Hwant].
+      * destruct (lv_groups_spec w (Nat.div (length vs) 8) vs (S (length (lit_bytes w vs ++ bytes_of_runs w rs)))
+                    (bytes_of_runs w rs) want (runs_div8 vs Hm) Hs) as [G1 G2].
+        { rewrite app_length, Hlb. apply Nat.lt_succ_r. apply Nat.le_trans with (w * Nat.div (length vs) 8)%nat; [|lia].
+          rewrite <- (Nat.mul_1_l (Nat.div (length vs) 8)) at 1. apply Nat.mul_le_mono_r. exact Hw1. }
+        destruct (lv_groups (S (length (lit_bytes w vs ++ bytes_of_runs w rs))) w (N.of_nat (Nat.div (length vs) 8))
+                            (lit_bytes w vs ++ bytes_of_runs w rs) want) as [out r2].
+        cbn [fst snd] in G1, G2. subst out.
+        destruct (Nat.le_gt_cases want (length vs)) as [L|G].
+        -- rewrite firstn_length_le by exact L. rewrite Nat.sub_diag, lv_loop_zero, app_nil_r.
+           symmetry. apply firstn_app_le. exact L.
+        -- rewrite (G2 ltac:(lia)). rewrite firstn_all2 by lia.
+           rewrite IH by (try assumption; rewrite app_length in Hf'; lia).
+           rewrite firstn_app_split. rewrite Nat.min_r by lia. rewrite firstn_all. reflexivity.
+Qed.
+
+Theorem rle_decode_levels_accepts_thm : forall w bytes vals n,
+  (1 <= w <= 32)%nat -> Denotes w bytes vals -> (n <= length vals)%nat ->
+  rle_decode_levels w bytes n = firstn n vals.
+Proof.
+  intros w bytes vals n Hw (rs & Hwf & -> & ->) Hn. unfold rle_decode_levels.
+  destruct (bytes_of_runs w rs) as [|b tl] eqn:E.
+  - apply bytes_of_runs_nil in E. subst rs. cbn [runs_vals map concat]. rewrite firstn_nil. reflexivity.
+  - rewrite <- E. apply lv_loop_runs; [exact Hw|exact Hwf|lia|exact Hn].
+Qed.
+
+(** the stream forms the property names: a bit-packed run of three groups, a zero-length RLE run, an RLE run *)
+Example rle_decode_levels_example :
+  let rs := [RLit [0;1;2;3;0;1;2;3; 3;3;3;3;3;3;3;3; 1;0;0;0;0;0;0;0]; RRun 0 2; RRun 5 3] in
+  Forall (wf_run 2) rs /\
+  rle_decode_levels 2 (bytes_of_runs 2 rs) 22 = [0;1;2;3;0;1;2;3; 3;3;3;3;3;3;3;3; 1;0;0;0;0;0] /\
+  rle_decode_levels 2 (bytes_of_runs 2 rs) 29 = [0;1;2;3;0;1;2;3; 3;3;3;3;3;3;3;3; 1;0;0;0;0;0;0;0; 3;3;3;3;3].
+Proof.
+  split; [|split; vm_compute; reflexivity].
+  repeat constructor; cbn; try lia; try (vm_compute; reflexivity).
+Qed.
+
+(* ================================================================== level blocks *)
+
+Lemma bit_width_bounds m : m <> 0 -> m < 2 ^ 32 -> (1 <= bit_width m <= 32)%nat.
+Proof.
+  intros H0 H. unfold bit_width. split.
+  - destruct m as [|p]; [contradiction|]. destruct p; cbn; lia.
+  - pose proof (N.size_le m) as L. rewrite N.succ_double_spec in L.
+    assert (N.size m <= 32); [|lia].
+    apply N.lt_succ_r. apply (N.pow_lt_mono_r_iff 2); [lia|]. change (N.succ 32) with 33.
+    change (2 ^ 33) with 8589934592. change (2 ^ 32) with 4294967296 in H. lia.
+Qed.
+
+Lemma le_val_le_bytes4 x : x < 2 ^ 32 -> BitpackModel.le_val (DeltaBits.le_bytes 4 x) = x.
+Proof.
+  intros H. unfold DeltaBits.le_bytes. rewrite le_val_from_base. apply from_to_base; [discriminate|].
+  change (256 ^ N.of_nat 4) with (2 ^ 32). exact H.
+Qed.
+
+(** a level block in the format's layout is read back exactly: any mix of run kinds at the prescribed width *)
+Lemma read_level_block_accepts maxlvl n bytes levels rest enc :
+  maxlvl < 2 ^ 32 -> LevelBlock maxlvl n bytes levels rest -> (maxlvl = 0 \/ enc = E_CARQUET_ENCODING_RLE) ->
+  read_level_block maxlvl enc bytes n = Ok (levels, rest).
+Proof.
+  intros Hm HB He. unfold LevelBlock in HB. unfold read_level_block.
+  destruct (N.eqb_spec maxlvl 0) as [E0|E0].
+  - destruct HB as [-> ->]. reflexivity.
+  - destruct He as [He|He]; [contradiction|]. subst enc.
+    destruct HB as (stream & vals & -> & Hl & HD & Hn & ->).
+    change (E_CARQUET_ENCODING_RLE =? Foreign_level_encoding)%Z with true. cbn [negb].
+    assert (L4 : length (DeltaBits.le_bytes 4 (len stream)) = 4%nat) by apply le_bytes_length.
+    assert (E1 : Nat.ltb (length (DeltaBits.le_bytes 4 (len stream) ++ stream ++ rest)) 4 = false).
+    { apply Nat.ltb_ge. rewrite app_length, L4. lia. }
+    rewrite E1.
+    assert (F4 : firstn 4 (DeltaBits.le_bytes 4 (len stream) ++ stream ++ rest) = DeltaBits.le_bytes 4 (len stream)).
+    { rewrite firstn_app, L4, Nat.sub_diag, firstn_O, app_nil_r. apply firstn_all2. lia. }
+    assert (S4 : skipn 4 (DeltaBits.le_bytes 4 (len stream) ++ stream ++ rest) = stream ++ rest).
+    { rewrite skipn_app, L4, Nat.sub_diag, skipn_O, skipn_all2 by lia. reflexivity. }
+    rewrite F4, S4, (le_val_le_bytes4 _ Hl).
+    assert (E2 : (len (stream ++ rest) <? len stream) = false).
+    { apply N.ltb_ge. unfold len. rewrite app_length. lia. }
+    rewrite E2. unfold len. rewrite Nat2N.id.
+    rewrite firstn_app, Nat.sub_diag, firstn_O, app_nil_r, firstn_all.
+    rewrite skipn_app, Nat.sub_diag, skipn_O, skipn_all. cbn [app].
+    rewrite (bit_width_for_max_spec _ Hm). unfold decode_levels_rle.
+    pose proof (bit_width_bounds maxlvl E0 Hm) as Hw.
+    destruct (Nat.eqb_spec (bit_width maxlvl) 0) as [Z0|_]; [lia|].
+    rewrite (rle_decode_levels_accepts_thm _ _ _ _ Hw HD Hn).
+    rewrite firstn_length_le by exact Hn. rewrite Nat.sub_diag. cbn [repeat]. rewrite app_nil_r. reflexivity.
+Qed.
+
+(* ================================================================== dictionary-encoded values *)
+
+Definition model_dict (entries : list (list N)) : dictionary := mkdict (len entries) entries.
+
+Lemma gather_accepts entries : forall idx vals,
+  Forall2 (fun i v => nth_error entries (N.to_nat i) = Some v) idx vals -> gather (model_dict entries) idx = Ok vals.
+Proof.
+  intros idx vals H. induction H as [|i v idx vals Hi _ IH]; [reflexivity|].
+  cbn [gather model_dict dict_count dict_entries] in *.
+  assert (Hlt : (N.to_nat i < length entries)%nat) by (apply nth_error_Some; rewrite Hi; discriminate).
+  assert (E : (len entries <=? i) = false) by (apply N.leb_gt; unfold len; lia).
+  rewrite E, Hi, IH. reflexivity.
+Qed.
+
+Lemma dictionary_capable_in_list t : dictionary_capable t -> in_list t Foreign_dict_types = true.
+Proof. intros H. unfold dictionary_capable in H. decompose [or] H; subst t; reflexivity. Qed.
+
+Lemma value_encoding_dict e : is_dict_encoding e = true -> Foreign_value_encoding e = Some 1%nat.
+Proof.
+  unfold is_dict_encoding, Foreign_value_encoding. intros H. apply orb_true_iff in H.
+  destruct H as [H|H]; apply Z.eqb_eq in H; subst e; reflexivity.
+Qed.
+
+(* ================================================================== one data page *)
+
+Section Page.
+  (** PLAIN facts of the column's physical type (Enc/PlainProofs.v proves them for the fixed-width numeric types and
+      BYTE_ARRAY: see [plain_accepts_fixed] and [plain_accepts_byte_array] below) *)
+  Variable col : column.
+  Hypothesis plain_decode_accepts : forall n bs vals,
+    DeltaBits.bytes bs -> len bs < 2 ^ 60 -> plain_values (c_type col) (c_tlen col) n bs = Some vals ->
+    decode_plain (c_type col) (N.of_nat (c_tlen col)) bs (N.of_nat n) = Ok vals.
+
+  Lemma level_block_rest_bytes maxlvl n bytes levels rest :
+    LevelBlock maxlvl n bytes levels rest -> DeltaBits.bytes bytes -> DeltaBits.bytes rest /\ (length rest <= length bytes)%nat.
+  Proof.
+    unfold LevelBlock. destruct (maxlvl =? 0).
+    - intros [_ ->] B. split; [exact B|lia].
+    - intros (stream & vals & -> & _) B. unfold DeltaBits.bytes in *. rewrite !Forall_app in B.
+      split; [tauto|rewrite !app_length; lia].
+  Qed.
+
+  Theorem page_decode_accepts_thm : forall dict hdr body reps defs vals,
+    c_maxrep col < 2 ^ 32 -> c_maxdef col < 2 ^ 32 -> DeltaBits.bytes body -> len body < 2 ^ 60 ->
+    (is_dict_encoding (h_encoding hdr) = true -> dictionary_capable (c_type col)) ->
+    PageDenotes col dict hdr body (reps, defs, vals) ->
+    decode_page col (option_map model_dict dict) hdr body = Ok (reps, defs, vals).
+  Proof.
+    intros dict hdr body reps defs vals Hr Hd Bb Lb Hcap (Ht & Hn & Her & Hed & r1 & r2 & HR & HD & HV).
+    unfold decode_page. rewrite Ht.
+    change (E_CARQUET_PAGE_DATA =? Foreign_page_rejected)%Z with false.
+    change (E_CARQUET_PAGE_DATA =? Foreign_page_data)%Z with true. cbn [negb].
+    destruct (Z.ltb_spec (h_num_values hdr) 0) as [L|_]; [lia|].
+    unfold read_data_page_v1.
+    rewrite (read_level_block_accepts _ _ _ _ _ _ Hr HR Her). cbn [bind fst snd].
+    rewrite (read_level_block_accepts _ _ _ _ _ _ Hd HD Hed). cbn [bind fst snd].
+    destruct (level_block_rest_bytes _ _ _ _ _ HR Bb) as [B1 L1].
+    destruct (level_block_rest_bytes _ _ _ _ _ HD B1) as [B2 L2].
+    assert (Lr2 : len r2 < 2 ^ 60) by (unfold len in *; lia).
+    assert (Enn : count_non_null (c_maxdef col) defs (Z.to_nat (h_num_values hdr)) =
+                  (if c_maxdef col =? 0 then Z.to_nat (h_num_values hdr) else count_eq (c_maxdef col) defs)) by reflexivity.
+    rewrite Enn. set (nn := if c_maxdef col =? 0 then Z.to_nat (h_num_values hdr) else count_eq (c_maxdef col) defs) in *.
+    destruct HV as [[He HP]|[He (d & -> & w & stream & ivals & -> & Hw & HDen & Hlen & HF)]].
+    - rewrite He. change (Foreign_value_encoding E_CARQUET_ENCODING_PLAIN) with (Some 0%nat).
+      rewrite (plain_decode_accepts nn r2 vals B2 Lr2 HP). reflexivity.
+    - rewrite (value_encoding_dict _ He). cbn [option_map].
+      destruct HDen as (rs & Hwf & -> & ->).
+      rewrite (decode_all_runs (N.to_nat w) rs nn ltac:(lia) Hwf).
+      rewrite firstn_length_le by exact Hlen. rewrite Nat.sub_diag. cbn [repeat]. rewrite app_nil_r.
+      rewrite (gather_accepts d _ _ HF).
+      rewrite (dictionary_capable_in_list _ (Hcap He)).
+      destruct (c_type col =? E_CARQUET_PHYSICAL_BYTE_ARRAY)%Z; reflexivity.
+  Qed.
+End Page.
+
+(* ================================================================== PLAIN values, type by type *)
+
+Lemma flba_as_fixed k : forall n bs vs r,
+  spec_flba_dec k n bs = Some (vs, r) -> spec_fixed_dec k n bs = Some (map le_num vs, r).
+Proof.
+  induction n as [|n IH]; intros bs vs r H; cbn [spec_flba_dec spec_fixed_dec] in *.
+  - injection H as <- <-. reflexivity.
+  - destruct (DeltaBits.take k bs) as [[v rest]|]; [|discriminate].
+    destruct (spec_flba_dec k n rest) as [[vs' r']|] eqn:E; [|discriminate].
+    injection H as <- <-. rewrite (IH _ _ _ E). reflexivity.
+Qed.
+
+Lemma flba_shape k : forall n bs vs r,
+  spec_flba_dec k n bs = Some (vs, r) -> bs = concat vs ++ r /\ Forall (fun v => length v = k) vs /\ length vs = n.
+Proof.
+  induction n as [|n IH]; intros bs vs r H; cbn [spec_flba_dec] in *.
+  - injection H as <- <-. repeat split; constructor.
+  - destruct (DeltaBits.take k bs) as [[v rest]|] eqn:T; [|discriminate].
+    destruct (spec_flba_dec k n rest) as [[vs' r']|] eqn:E; [|discriminate].
+    injection H as <- <-. destruct (DeltaBits.take_spec _ _ _ _ T) as [-> Hl]. destruct (IH _ _ _ E) as (-> & HF & HL).
+    cbn [concat length]. rewrite <- app_assoc. repeat split; [constructor; assumption|lia].
+Qed.
+
+Lemma bytes_concat (vs : list (list N)) r : DeltaBits.bytes (concat vs ++ r) -> Forall DeltaBits.bytes vs.
+Proof.
+  induction vs as [|v vs IH]; intros H; [constructor|]. cbn [concat] in H. unfold DeltaBits.bytes in *.
+  rewrite <- app_assoc in H. apply Forall_app in H. destruct H as [Hv H]. constructor; [exact Hv|apply IH; exact H].
+Qed.
+
+Lemma fixed_values_bytes k n bs vs r :
+  DeltaBits.bytes bs -> (0 < k)%nat -> spec_flba_dec k n bs = Some (vs, r) ->
+  rmap (map (le_bytes_f k)) (strip (dec_fixed k bs (N.of_nat n))) = Ok vs.
+Proof.
+  intros B Hs H. rewrite (plain_fixed_decode_accepts k n bs _ r Hs (flba_as_fixed _ _ _ _ _ H)).
+  cbn [strip rmap]. f_equal. destruct (flba_shape _ _ _ _ _ H) as (-> & HF & _).
+  pose proof (bytes_concat _ _ B) as HB. clear -HF HB.
+  induction vs as [|v vs IH]; [reflexivity|].
+  inversion HF as [|? ? Hlv HF']; inversion HB as [|? ? Hbv HB']; subst. cbn [map].
+  rewrite IH by assumption. f_equal. rewrite le_bytes_f_eq. apply le_bytes_num. exact Hbv.
+Qed.
+
+Definition plain_proved (t : Z) : Prop :=
+  t = E_CARQUET_PHYSICAL_INT32 \/ t = E_CARQUET_PHYSICAL_FLOAT \/ t = E_CARQUET_PHYSICAL_INT64 \/
+  t = E_CARQUET_PHYSICAL_DOUBLE \/ t = E_CARQUET_PHYSICAL_BYTE_ARRAY.
+
+(** carquet_decode_plain returns the values the PLAIN specification reads, for INT32 / FLOAT / INT64 / DOUBLE (through
+    Enc/PlainProofs.plain_fixed_decode_accepts) and BYTE_ARRAY (plain_byte_array_decode_accepts) *)
+Theorem plain_accepts_thm : forall t tlen, plain_proved t -> forall n bs vals,
+  DeltaBits.bytes bs -> len bs < 2 ^ 60 -> plain_values t tlen n bs = Some vals ->
+  decode_plain t (N.of_nat tlen) bs (N.of_nat n) = Ok vals.
+Proof.
+  intros t tlen Ht n bs vals B L H.
+  unfold plain_proved in Ht. decompose [or] Ht; subst t; unfold plain_values in H; cbn in H.
+  - destruct (spec_flba_dec 4 n bs) as [[vs r]|] eqn:E; [|discriminate]. injection H as <-.
+    apply (fixed_values_bytes 4 n bs vs r B); [lia|exact E].
+  - destruct (spec_flba_dec 4 n bs) as [[vs r]|] eqn:E; [|discriminate]. injection H as <-.
+    apply (fixed_values_bytes 4 n bs vs r B); [lia|exact E].
+  - destruct (spec_flba_dec 8 n bs) as [[vs r]|] eqn:E; [|discriminate]. injection H as <-.
+    apply (fixed_values_bytes 8 n bs vs r B); [lia|exact E].
+  - destruct (spec_flba_dec 8 n bs) as [[vs r]|] eqn:E; [|discriminate]. injection H as <-.
+    apply (fixed_values_bytes 8 n bs vs r B); [lia|exact E].
+  - destruct (spec_ba_dec n bs) as [[vs r]|] eqn:E; [|discriminate]. injection H as <-.
+    unfold decode_plain. cbn. rewrite (plain_byte_array_decode_accepts n bs vs r E). reflexivity.
+Qed.
+
+(* ================================================================== dictionary page *)
+
+Lemma chunks_concat k : forall vs r, Forall (fun v => length v = k) vs ->
+  chunks k (length vs) (concat vs ++ r) = vs.
+Proof.
+  induction vs as [|v vs IH]; intros r HF; [reflexivity|]. inversion HF as [|? ? Hv HF']; subst.
+  cbn [length chunks concat]. rewrite <- app_assoc.
+  rewrite firstn_app, Nat.sub_diag, firstn_O, app_nil_r, firstn_all.
+  rewrite skipn_app, Nat.sub_diag, skipn_O, skipn_all. cbn [app]. rewrite IH by exact HF'. reflexivity.
+Qed.
+
+Lemma concat_length_fixed k (vs : list (list N)) : Forall (fun v => length v = k) vs -> length (concat vs) = (k * length vs)%nat.
+Proof.
+  induction vs as [|v vs IH]; intros HF; [cbn; lia|]. inversion HF as [|? ? Hv HF']; subst.
+  cbn [concat length]. rewrite app_length, IH by exact HF'. lia.
+Qed.
+
+Lemma le_val_le_num l : BitpackModel.le_val l = le_num l.
+Proof.
+  unfold BitpackModel.le_val, le_num. induction l as [|b l IH]; [reflexivity|].
+  cbn [fold_right DeltaBits.from_base]. rewrite IH. reflexivity.
+Qed.
+
+Lemma ba_entries_spec : forall n bs vs r, spec_ba_dec n bs = Some (vs, r) ->
+  ba_entries n bs = Ok vs /\ length vs = n /\ (4 * n <= length bs)%nat.
+Proof.
+  induction n as [|n IH]; intros bs vs r H; cbn [spec_ba_dec ba_entries] in *.
+  - injection H as <- <-. repeat split; cbn; lia.
+  - destruct (DeltaBits.take 4 bs) as [[l4 r1]|] eqn:T; [|discriminate].
+    destruct (DeltaBits.take_spec _ _ _ _ T) as [-> L4].
+    destruct (2 ^ 31 <=? le_num l4); [discriminate|].
+    destruct (DeltaBits.take (N.to_nat (le_num l4)) r1) as [[s r2]|] eqn:T2; [|discriminate].
+    destruct (DeltaBits.take_spec _ _ _ _ T2) as [-> Ls].
+    destruct (spec_ba_dec n r2) as [[vs' r']|] eqn:E; [|discriminate]. injection H as <- <-.
+    destruct (IH _ _ _ E) as (IHe & HL & HB).
+    assert (E1 : Nat.ltb (length (l4 ++ s ++ r2)) 4 = false) by (apply Nat.ltb_ge; rewrite app_length; lia).
+    rewrite E1.
+    assert (F4 : firstn 4 (l4 ++ s ++ r2) = l4) by (rewrite <- L4, firstn_app, Nat.sub_diag, firstn_O, app_nil_r; apply firstn_all).
+    rewrite F4, le_val_le_num.
+    assert (E2 : (len (l4 ++ s ++ r2) <? 4 + le_num l4) = false).
+    { apply N.ltb_ge. unfold len. rewrite !app_length. lia. }
+    rewrite E2.
+    assert (S4 : skipn 4 (l4 ++ s ++ r2) = s ++ r2) by (rewrite <- L4, skipn_app, Nat.sub_diag, skipn_O, skipn_all; reflexivity).
+    assert (S5 : skipn (4 + N.to_nat (le_num l4)) (l4 ++ s ++ r2) = r2).
+    { rewrite skipn_plus, S4, <- Ls, skipn_app, Nat.sub_diag, skipn_O, skipn_all. reflexivity. }
+    rewrite S5, S4, IHe. rewrite <- Ls at 1. rewrite firstn_app, Nat.sub_diag, firstn_O, app_nil_r, firstn_all.
+    repeat split; [cbn [length]; lia|rewrite !app_length; lia].
+Qed.
+
+
+Lemma fixed_width_entry_size t tlen k : dictionary_capable t -> t <> E_CARQUET_PHYSICAL_BYTE_ARRAY ->
+  fixed_width t tlen = Some k -> Foreign_dict_entry_size t (N.of_nat tlen) = Some (N.of_nat k).
+Proof.
+  intros Hc Hb H. unfold dictionary_capable in Hc. decompose [or] Hc; subst t; try contradiction;
+    cbn in H; injection H as <-; reflexivity.
+Qed.
+
+(** carquet_read_dictionary_page returns the PLAIN entries the dictionary page holds *)
+Lemma read_dictionary_page_accepts t tlen count body entries :
+  dictionary_capable t -> plain_values t tlen count body = Some entries ->
+  read_dictionary_page t (N.of_nat tlen) body (Z.of_nat count) = Ok (model_dict entries).
+Proof.
+  intros Hc H. unfold read_dictionary_page.
+  destruct (Z.ltb_spec (Z.of_nat count) 0) as [L|_]; [lia|].
+  replace (Z.to_N (Z.of_nat count)) with (N.of_nat count) by lia.
+  unfold plain_values in H.
+  assert (Hb : (t =? E_CARQUET_PHYSICAL_BOOLEAN)%Z = false).
+  { unfold dictionary_capable in Hc. decompose [or] Hc; subst t; reflexivity. }
+  rewrite Hb in H.
+  destruct (Z.eqb_spec t E_CARQUET_PHYSICAL_BYTE_ARRAY) as [Eba|Nba].
+  - destruct (spec_ba_dec count body) as [[vs r]|] eqn:E; [|discriminate]. injection H as <-.
+    destruct (ba_entries_spec _ _ _ _ E) as (IHe & HL & HB).
+    assert (E1 : (len body / 4 <? N.of_nat count) = false).
+    { apply N.ltb_ge. apply N.div_le_lower_bound; [discriminate|]. unfold len. lia. }
+    rewrite E1, Nat2N.id, IHe. unfold model_dict, len. rewrite HL. reflexivity.
+  - destruct (fixed_width t tlen) as [k|] eqn:Ek; [|discriminate].
+    destruct (Nat.eqb_spec k 0) as [K0|K0]; [discriminate|].
+    destruct (spec_flba_dec k count body) as [[vs r]|] eqn:E; [|discriminate]. injection H as <-.
+    rewrite (fixed_width_entry_size t tlen k Hc Nba Ek).
+    destruct (flba_shape _ _ _ _ _ E) as (-> & HF & HL).
+    assert (E0 : (N.of_nat k =? 0) = false) by (apply N.eqb_neq; lia). rewrite E0. cbn [negb andb].
+    assert (Hlen : length (concat vs) = (k * count)%nat) by (rewrite (concat_length_fixed k vs HF), HL; reflexivity).
+    assert (E1 : (len (concat vs ++ r) / N.of_nat k <? N.of_nat count) = false).
+    { apply N.ltb_ge. apply N.div_le_lower_bound; [lia|]. unfold len. rewrite app_length, Hlen. lia. }
+    rewrite E1. rewrite !Nat2N.id.
+    replace (N.to_nat (N.of_nat k * N.of_nat count)) with (length (concat vs)) by lia.
+    rewrite firstn_app, Nat.sub_diag, firstn_O, app_nil_r, firstn_all.
+    rewrite <- HL. rewrite <- (app_nil_r (concat vs)). rewrite (chunks_concat k vs [] HF).
+    unfold model_dict, len. reflexivity.
+Qed.
+
+(* ================================================================== lengths of what a page denotes *)
+
+Lemma all_some_length {A} : forall (l : list (option A)) r, all_some l = Some r -> length r = length l.
+Proof.
+  induction l as [|o l IH]; intros r H; cbn [all_some] in H.
+  - injection H as <-. reflexivity.
+  - destruct o as [x|]; [|discriminate]. destruct (all_some l) as [r'|]; [|discriminate].
+    injection H as <-. cbn [length]. rewrite (IH r' eq_refl). reflexivity.
+Qed.
+
+Lemma plain_values_length t tlen n bs vals : plain_values t tlen n bs = Some vals -> length vals = n.
+Proof.
+  unfold plain_values. destruct (t =? E_CARQUET_PHYSICAL_BOOLEAN)%Z.
+  - unfold spec_bool_dec. destruct (all_some (map (bit_of bs) (List.seq 0%nat n))) as [bits|] eqn:E; [|discriminate].
+    intros H. injection H as <-. rewrite map_length, (all_some_length _ _ E), map_length, seq_length. reflexivity.
+  - destruct (t =? E_CARQUET_PHYSICAL_BYTE_ARRAY)%Z.
+    + destruct (spec_ba_dec n bs) as [[vs r]|] eqn:E; [|discriminate]. intros H. injection H as <-.
+      destruct (ba_entries_spec _ _ _ _ E) as (_ & HL & _). exact HL.
+    + destruct (fixed_width t tlen) as [k|]; [|discriminate]. destruct (Nat.eqb k 0); [discriminate|].
+      destruct (spec_flba_dec k n bs) as [[vs r]|] eqn:E; [|discriminate]. intros H. injection H as <-.
+      destruct (flba_shape _ _ _ _ _ E) as (_ & _ & HL). exact HL.
+Qed.
+
+Lemma level_block_length maxlvl n bytes levels rest : LevelBlock maxlvl n bytes levels rest -> length levels = n.
+Proof.
+  unfold LevelBlock. destruct (maxlvl =? 0).
+  - intros [-> _]. apply repeat_length.
+  - intros (stream & vals & _ & _ & _ & Hn & ->). apply firstn_length_le. exact Hn.
+Qed.
+
+Lemma filter_len_le {A} (f : A -> bool) (l : list A) : (length (filter f l) <= length l)%nat.
+Proof. induction l as [|x l IH]; [cbn; lia|]. cbn [filter]. destruct (f x); cbn [length]; lia. Qed.
+
+Lemma Forall2_len {A B} (R : A -> B -> Prop) l1 l2 : Forall2 R l1 l2 -> length l1 = length l2.
+Proof. induction 1; cbn [length]; congruence. Qed.
+
+Lemma page_lengths col dict hdr body reps defs vals :
+  PageDenotes col dict hdr body (reps, defs, vals) ->
+  length reps = Z.to_nat (h_num_values hdr) /\ length defs = Z.to_nat (h_num_values hdr) /\
+  (length vals <= Z.to_nat (h_num_values hdr))%nat.
+Proof.
+  intros (_ & _ & _ & _ & r1 & r2 & HR & HD & HV).
+  pose proof (level_block_length _ _ _ _ _ HR) as LR. pose proof (level_block_length _ _ _ _ _ HD) as LD.
+  split; [exact LR|]. split; [exact LD|].
+  assert (Hnn : ((if (c_maxdef col =? 0)%N then Z.to_nat (h_num_values hdr) else count_eq (c_maxdef col) defs)
+                 <= Z.to_nat (h_num_values hdr))%nat).
+  { destruct (c_maxdef col =? 0); [lia|]. unfold count_eq. rewrite <- LD. apply filter_len_le. }
+  destruct HV as [[_ HP]|[_ (d & _ & w & stream & ivals & _ & _ & _ & Hlen & HF)]].
+  - rewrite (plain_values_length _ _ _ _ _ HP). exact Hnn.
+  - rewrite <- (Forall2_len _ _ _ HF). rewrite firstn_length_le by exact Hlen. exact Hnn.
+Qed.
+
+(* ================================================================== a whole column chunk *)
+
+Section ChunkAccepts.
+  Variable gz_d zs_d : list N -> N -> res (list N).
+  Variable GzipDenotes ZstdDenotes : list N -> list N -> Prop.
+  (** zlib / libzstd return the bytes a valid GZIP member / ZSTD frame denotes when the destination has room *)
+  Hypothesis gz_d_complete : forall stored body cap, GzipDenotes stored body -> nlen body <= cap -> gz_d stored cap = Ok body.
+  Hypothesis zs_d_complete : forall stored body cap, ZstdDenotes stored body -> nlen body <= cap -> zs_d stored cap = Ok body.
+
+  Variable col : column.
+  Hypothesis plain_decode_accepts : forall n bs vals,
+    DeltaBits.bytes bs -> len bs < 2 ^ 60 -> plain_values (c_type col) (c_tlen col) n bs = Some vals ->
+    decode_plain (c_type col) (N.of_nat (c_tlen col)) bs (N.of_nat n) = Ok vals.
+  Hypothesis Hrep : c_maxrep col < 2 ^ 32.
+  Hypothesis Hdef : c_maxdef col < 2 ^ 32.
+
+  Lemma page_body_accepts p body :
+    StoredPage GzipDenotes ZstdDenotes col p body -> page_body gz_d zs_d col p = Ok body.
+  Proof.
+    intros (HS & Hu & Bs & Bb & _). unfold page_body.
+    assert (Hcap : nlen body <= Z.to_N (h_usize (fst p))) by (rewrite Hu; unfold nlen; lia).
+    assert (Hneg : (h_usize (fst p) <? 0)%Z = false) by (apply Z.ltb_ge; lia).
+    unfold StoredDenotes in HS. destruct HS as [[Ec E]|[[Ec E]|[[Ec E]|[[Ec E]|[Ec E]]]]]; rewrite Ec.
+    - subst body. reflexivity.
+    - change (E_CARQUET_COMPRESSION_SNAPPY =? E_CARQUET_COMPRESSION_UNCOMPRESSED)%Z with false. rewrite Hneg.
+      unfold decompress_page. change (Foreign_codec_dispatch E_CARQUET_COMPRESSION_SNAPPY) with (Some 1%nat).
+      apply snappy_decompress_complete_thm; assumption.
+    - change (E_CARQUET_COMPRESSION_LZ4_RAW =? E_CARQUET_COMPRESSION_UNCOMPRESSED)%Z with false. rewrite Hneg.
+      unfold decompress_page. change (Foreign_codec_dispatch E_CARQUET_COMPRESSION_LZ4_RAW) with (Some 2%nat).
+      apply lz4_decompress_complete_thm; assumption.
+    - change (E_CARQUET_COMPRESSION_GZIP =? E_CARQUET_COMPRESSION_UNCOMPRESSED)%Z with false. rewrite Hneg.
+      unfold decompress_page. change (Foreign_codec_dispatch E_CARQUET_COMPRESSION_GZIP) with (Some 3%nat).
+      apply gz_d_complete; assumption.
+    - change (E_CARQUET_COMPRESSION_ZSTD =? E_CARQUET_COMPRESSION_UNCOMPRESSED)%Z with false. rewrite Hneg.
+      unfold decompress_page. change (Foreign_codec_dispatch E_CARQUET_COMPRESSION_ZSTD) with (Some 4%nat).
+      apply zs_d_complete; assumption.
+  Qed.
+
+  Lemma load_data_page_accepts dict p body reps defs vals :
+    StoredPage GzipDenotes ZstdDenotes col p body ->
+    (is_dict_encoding (h_encoding (fst p)) = true -> dictionary_capable (c_type col)) ->
+    PageDenotes col dict (fst p) body (reps, defs, vals) ->
+    load_data_page gz_d zs_d col (option_map model_dict dict) p = Ok (reps, defs, vals).
+  Proof.
+    intros HS Hcap HP.
+    pose proof (page_decode_accepts_thm col plain_decode_accepts dict (fst p) body reps defs vals Hrep Hdef) as T.
+    destruct HS as (HS & Hu & Bs & Bb & Lb). specialize (T Bb Lb Hcap HP).
+    unfold decode_page in T. unfold load_data_page.
+    destruct (h_type (fst p) =? Foreign_page_rejected)%Z; [discriminate|].
+    destruct (negb (h_type (fst p) =? Foreign_page_data)%Z); [discriminate|].
+    destruct (h_num_values (fst p) <? 0)%Z; [discriminate|].
+    rewrite (page_body_accepts p body (conj HS (conj Hu (conj Bs (conj Bb Lb))))). cbn [bind]. exact T.
+  Qed.
+
+  Definition dict_pages_ok (ps : list stored_page) : Prop :=
+    Forall (fun p => is_dict_encoding (h_encoding (fst p)) = true -> dictionary_capable (c_type col)) ps.
+
+  Lemma data_pages_lengths dict ps reps defs vals :
+    DataPagesDenote GzipDenotes ZstdDenotes col dict ps (reps, defs, vals) ->
+    length reps = length defs /\ (length vals <= length defs)%nat.
+  Proof.
+    intros H. remember (reps, defs, vals) as out eqn:Eo. revert reps defs vals Eo.
+    induction H as [|p ps body r d v r' d' v' HS HP HT IH]; intros reps defs vals Eo; injection Eo as <- <- <-.
+    - split; [reflexivity|cbn; lia].
+    - destruct (page_lengths _ _ _ _ _ _ _ HP) as (L1 & L2 & L3). destruct (IH _ _ _ eq_refl) as [I1 I2].
+      rewrite !app_length. lia.
+  Qed.
+
+  Lemma decode_data_pages_accepts dict ps reps defs vals :
+    DataPagesDenote GzipDenotes ZstdDenotes col dict ps (reps, defs, vals) -> dict_pages_ok ps ->
+    decode_data_pages gz_d zs_d col (option_map model_dict dict) (Z.of_nat (length defs)) ps = Ok (reps, defs, vals).
+  Proof.
+    intros H. remember (reps, defs, vals) as out eqn:Eo. revert reps defs vals Eo.
+    induction H as [|p ps body r d v r' d' v' HS HP HT IH]; intros reps defs vals Eo Hok; injection Eo as <- <- <-.
+    - reflexivity.
+    - inversion Hok as [|? ? Hp Hps]; subst. cbn [decode_data_pages].
+      destruct (Z.leb_spec (Z.of_nat (length (d ++ d'))) 0) as [L0|G0].
+      + (* nothing remains: every page of the list is empty *)
+        assert (Ed : d = [] /\ d' = []).
+        { rewrite app_length in L0. split; [destruct d|destruct d']; try reflexivity; cbn [length] in L0; lia. }
+        destruct Ed as [-> ->].
+        destruct (page_lengths _ _ _ _ _ _ _ HP) as (L1 & L2 & L3). cbn [length] in *.
+        destruct (data_pages_lengths _ _ _ _ _ HT) as [I1 I2]. cbn [length] in *.
+        destruct r; [|cbn in L1; lia]. destruct v; [|cbn in L3; lia].
+        destruct r'; [|cbn in I1; lia]. destruct v'; [|cbn in I2; lia]. reflexivity.
+      + rewrite (load_data_page_accepts dict p body r d v HS Hp HP). cbn [bind fst snd].
+        replace (Z.of_nat (length (d ++ d')) - Z.of_nat (length d))%Z with (Z.of_nat (length d'))
+          by (rewrite app_length; lia).
+        rewrite (IH r' d' v' eq_refl Hps). reflexivity.
+  Qed.
+
+  (** First sentence of the property, for one column chunk: whatever the page split, with a dictionary page whose
+      offset the metadata announces or not, under each of the five codecs, the reader returns exactly the
+      repetition levels, definition levels and values the chunk denotes. *)
+  Theorem chunk_decode_accepts_thm : forall has_off pages reps defs vals,
+    ChunkDenotes GzipDenotes ZstdDenotes col pages (reps, defs, vals) ->
+    dict_pages_ok pages ->
+    (has_off = true -> exists dp rest, pages = dp :: rest /\ h_type (fst dp) = E_CARQUET_PAGE_DICTIONARY) ->
+    (forall dp rest, pages = dp :: rest -> h_type (fst dp) = E_CARQUET_PAGE_DICTIONARY -> dictionary_capable (c_type col)) ->
+    decode_chunk gz_d zs_d col has_off (Z.of_nat (length defs)) pages = Ok (reps, defs, vals).
+  Proof.
+    intros has_off pages reps defs vals HC Hok Hoff Hdc. unfold decode_chunk.
+    destruct (Z.leb_spec (Z.of_nat (length defs)) 0) as [L0|G0].
+    { (* an empty chunk: no page is loaded *)
+      assert (defs = []) by (destruct defs; [reflexivity|cbn [length] in L0; lia]). subst defs.
+      assert (HL : length reps = 0%nat /\ (length vals <= 0)%nat).
+      { destruct HC as [HD|(dp & rest & dbody & entries & -> & _ & _ & HD)];
+          destruct (data_pages_lengths _ _ _ _ _ HD) as [I1 I2]; cbn [length] in *; lia. }
+      destruct HL as [L1 L2]. destruct reps; [|cbn in L1; lia]. destruct vals; [|cbn in L2; lia]. reflexivity. }
+    destruct HC as [HD|(dp & rest & dbody & entries & -> & HS & (Hty & Hnv & Hpl) & HD)].
+    - (* no dictionary page *)
+      destruct pages as [|p tl].
+      { inversion HD; subst. cbn [length] in G0. lia. }
+      destruct has_off.
+      + destruct (Hoff eq_refl) as (dp & rest & E & Hty). injection E as <- <-.
+        inversion HD as [|? ? body r d v r' d' v' HSp HPp HT]; subst.
+        destruct HPp as (Ht & _). rewrite Ht in Hty. discriminate.
+      + inversion HD as [|? ? body r d v r' d' v' HSp HPp HT]; subst.
+        destruct HPp as (Ht & HPrest). rewrite Ht.
+        change (E_CARQUET_PAGE_DATA =? Foreign_page_dictionary)%Z with false.
+        apply (decode_data_pages_accepts None (p :: tl)); [exact HD|exact Hok].
+    - (* dictionary page first: announced by the metadata or not, it is loaded as the dictionary *)
+      inversion Hok as [|? ? _ Hokr]; subst.
+      assert (HLD : load_dictionary gz_d zs_d col dp = Ok (model_dict entries)).
+      { unfold load_dictionary. rewrite Hty. change (E_CARQUET_PAGE_DICTIONARY =? E_CARQUET_PAGE_DICTIONARY)%Z with true.
+        cbn [negb]. rewrite (page_body_accepts dp dbody HS). cbn [bind].
+        rewrite <- (Z2Nat.id (h_num_values (fst dp)) Hnv).
+        apply read_dictionary_page_accepts; [exact (Hdc dp rest eq_refl Hty)|exact Hpl]. }
+      assert (HDP : decode_data_pages gz_d zs_d col (Some (model_dict entries)) (Z.of_nat (length defs)) rest = Ok (reps, defs, vals)).
+      { exact (decode_data_pages_accepts (Some entries) rest reps defs vals HD Hokr). }
+      destruct has_off.
+      + rewrite HLD. cbn [bind]. exact HDP.
+      + rewrite Hty. change (E_CARQUET_PAGE_DICTIONARY =? Foreign_page_dictionary)%Z with true.
+        rewrite HLD. cbn [bind]. exact HDP.
+  Qed.
+End ChunkAccepts.
